@@ -66,6 +66,14 @@ class Peer:
         self.count = getattr(self, "count", 0) + 1
         if self.count % 5 == 0:
             system = (0, 0xFFFFFFFF, 0x80000000)[(self.count // 5) % 3]
+        own = None
+        if self.count % 7 == 0 and w:
+            # the peer chooses its system bytes freely: here they equal those of a request of OURS that is still waiting for its reply.
+            # The inbound primary is a new message all the same and is due its own answer
+            self.own_requests = getattr(self, "own_requests", 0) + 1
+            own, _holder = rig.call(lambda: rig.handler.send_and_waitfor_response(rig.sf.function(2, 17)()), wait_for=(2, 17))
+            system = rig.pending[(2, 17)]
+            rig.new_frames()
         request = gemrig.HsmsMessage(gemrig.HsmsHeader(system, 0, s, f, w, 0, gemrig.HsmsSType.DATA_MESSAGE), body)
         rig.conn.feed(request.blocks[0].encode())
         if not rig.settle():
@@ -88,6 +96,11 @@ class Peer:
                     replies.append(f"(RSec {L.z(h.stream)} {L.z(h.function)})")
             elif is_reply_like:
                 system_ok = False
+        if own is not None:
+            rig.resolve((2, 17), None)
+            own.join(10)
+            if own.is_alive():
+                raise RuntimeError("the requester of our own S2F17 did not return")
         return replies, system_ok, header_ok
 
     def stop(self):
